@@ -130,3 +130,9 @@ pub fn add_random_indexes(db: &mut Database, d: &DbDef, r: &mut crate::rng::Rng,
     }
     ddl
 }
+
+/// The executor gives up on a statement after 300 s (QueryTimeoutExceeded): such an observation says nothing
+/// about the property and must not reach the model comparison.
+pub fn is_timeout(o: &Obs) -> bool {
+    matches!(o, Obs::Err(m) if m.contains("QueryTimeoutExceeded"))
+}
